@@ -236,6 +236,14 @@ func vcRunC10(t *vcTrial) {
 		window = true
 	}
 	calls := vc12Calls()
+	// Detach as a stale call too (only here, where the teardown of the old connection is complete and
+	// its descriptor closed: nothing is handed back to the user any more)
+	calls = append(calls, vc12Call{"Detach", "close", func(c Connection, n int) (error, []byte) {
+		if d, ok := c.(interface{ Detach() error }); ok {
+			return d.Detach(), nil
+		}
+		return nil, nil
+	}})
 	staleCalls, reuses, fdReuses, windows := 0, 0, 0, 0
 	closesUnderWrite, massHups := 0, 0
 	for step := 0; step < nops && !t.Violated() && t.inconclusive == ""; step++ {
